@@ -84,6 +84,7 @@ func profC12() *RevProfile {
 	p.EntryW = []int{55, 20, 25}
 	p.InvalidChain = 20
 	p.TimestampPct = 30
+	p.KeyW = []int{80, 6, 8, 3, 3}
 	p.Schedules = 4
 	p.LatMax = 400
 	p.PSrcFault = 40
